@@ -420,6 +420,63 @@ def run(repo, rep, tier):
                                     c.lineno, 'building this message raises '
                                     'instead of the intended error: ' + pr)
             r7.functions.add(f.fq)
+    # ---- R6b: saved parser state is restored on every normal return --------
+    # (a nested compile - compile_embedded_value inside an instance
+    # declaration - runs in the middle of an outer compile that keeps using
+    # parser.file / parser.mof for its own error context)
+    from ..cfg import CFG
+    for f in mc.methods.values():
+        saved = {}
+        for n in walk_no_nested(f.node):
+            if isinstance(n, ast.Assign) and len(n.targets) == 1 and \
+                    isinstance(n.targets[0], ast.Name) and \
+                    norm(n.value).startswith('self.parser.') and \
+                    isinstance(n.value, ast.Attribute):
+                saved[n.targets[0].id] = norm(n.value)
+        if not saved:
+            continue
+        cfg = None
+        for var, attr in sorted(saved.items()):
+            mods = [n for n in walk_no_nested(f.node)
+                    if isinstance(n, ast.Assign) and
+                    norm(n.targets[0]) == attr and norm(n.value) != var]
+            restores = [n for n in walk_no_nested(f.node)
+                        if isinstance(n, ast.Assign) and
+                        norm(n.targets[0]) == attr and norm(n.value) == var]
+            if not mods or not restores:
+                continue
+            if cfg is None:
+                cfg = CFG(f.node)
+            r6.sites += 1
+            rets = [n for n in cfg.stmts() if isinstance(n, ast.Return)]
+            for ret in rets:
+                wit = None
+                for m_ in mods:
+                    if m_ not in cfg.succ:
+                        continue
+                    wit = cfg.path_avoiding(m_, ret,
+                                            lambda n: n in restores)
+                    if wit is not None:
+                        break
+                ok = wit is None
+                r6.ob(ok, '%s:%s:restore' % (f.name, attr),
+                      {'function': f.qualname, 'saved': '%s = %s' % (var,
+                                                                     attr),
+                       'restored_before_return': ok})
+                if not ok:
+                    conds = [norm(n.test, 40) for n in wit
+                             if isinstance(n, (ast.If, ast.For))
+                             and hasattr(n, 'test')]
+                    rep.finding(
+                        r6, f.qualname, '%s = %s' % (attr, var),
+                        'not-restored', MOF, ret.lineno,
+                        '%s is saved in %s and switched for the nested '
+                        'compile, but there is a path to the return on which '
+                        'it is not restored (through: %s): the enclosing '
+                        'compile then computes error positions against the '
+                        'wrong text (IndexError instead of MOFCompileError, '
+                        'or a wrong context)'
+                        % (attr, var, ' / '.join(conds[-3:]) or '-'))
     # ---- R6: per-compile parser state ------------------------------------
     # A parser attribute that a compile entry point switches away from its
     # __init__ default is either re-assigned by *every* entry point before
